@@ -624,7 +624,7 @@ func (c *smCase) pickID(kind int) int64 {
 		case 4:
 			k = o
 		case 5:
-			k = int64(r.Intn(int(min64(m, o+6)) + 2))
+			k = int64(r.Intn(int(smMin64(m, o+6)) + 2))
 		case 6:
 			if len(in.Streams) > 0 {
 				k = in.Streams[r.Intn(len(in.Streams))][0] / 4
@@ -646,7 +646,7 @@ func (c *smCase) pickID(kind int) int64 {
 	return first + 4*k
 }
 
-func min64(a, b int64) int64 {
+func smMin64(a, b int64) int64 {
 	if a < b {
 		return a
 	}
